@@ -60,13 +60,14 @@ Print Assumptions C20_write_is_spec.
    the parser accepts (converted values cv) and every configurable option opt whose action -- if the option is given
    -- is marked explicit:   effective = CLI value, else value in THE config file (config.toml if TOML is supported
    and the file exists, else config.json), else the built-in default.
-   wf_namesb: no dest of the namespace is opt's "__explicit" mark, has opt as its own mark, or is called "self". *)
+   wf_namesb: no dest of the NAMESPACE (vars(args)) is opt's "__explicit" mark, has opt as its own mark, or is called
+   "self" (Config( **vars(args)) would be a TypeError; a fact about the parser table, proved for the generated one).
+   Nothing is assumed about the keys of the config FILES. *)
 Theorem C20_precedence : forall cfgd t has_toml sub p cli cv ftoml fjson opt,
   parser_of t sub = Some p ->
   convert_cli p cli = Ok cv ->
   wf_namesb t p opt = true -> dmem s_self cfgd = false ->
   dmem opt cfgd = true ->
-  dmem s_self (select_file has_toml ftoml fjson) = false ->
   (dget opt cv <> None -> marks_explicit p opt) ->
   effective cfgd t has_toml sub cli ftoml fjson opt =
     Ok (spec_effective (dget opt cv) (file_value has_toml ftoml fjson opt) (builtin_default cfgd t sub opt)).
@@ -80,7 +81,6 @@ Theorem C20_unmarked_loses_to_file : forall cfgd t has_toml sub p cli cv ftoml f
   convert_cli p cli = Ok cv ->
   wf_namesb t p opt = true -> dmem s_self cfgd = false ->
   dmem opt cfgd = true ->
-  dmem s_self (select_file has_toml ftoml fjson) = false ->
   (forall a, In a p -> a_dest a = opt -> a_explicit a = false) ->
   dget opt cv = Some v -> file_value has_toml ftoml fjson opt = Some fv ->
   effective cfgd t has_toml sub cli ftoml fjson opt = Ok fv.
@@ -100,7 +100,6 @@ Theorem C20_precedence_cli : forall has_toml sub p cli cv ftoml fjson opt,
   parser_of G.table sub = Some p ->
   convert_cli p cli = Ok cv ->
   dmem opt G.config_defaults = true ->
-  dmem s_self (select_file has_toml ftoml fjson) = false ->
   effective G.config_defaults G.table has_toml sub cli ftoml fjson opt =
     Ok (spec_effective (dget opt cv) (file_value has_toml ftoml fjson opt)
                        (builtin_default G.config_defaults G.table sub opt)).
@@ -119,10 +118,12 @@ Print Assumptions C20_builtin_defaults_are_spec.
 (* unknown keys                                                                                      *)
 (* ------------------------------------------------------------------------------------------------ *)
 
-(* the Config depends on the selected file only through the keys Config defines ... *)
+(* the Config depends on the selected file only through the keys Config defines: any other key of the file -- "foo",
+   "config_dir", "self", ... -- is ignored.  No premise on the file's keys.  (dmem s_self cfgd = false / NoDup: Config's
+   OWN attribute names, proved for the generated defaults in GenProps.config_keys_ok; a namespace containing a dest
+   called "self" makes both sides the same TypeError, excluded for the generated table by table_names_ok.) *)
 Theorem C20_unknown_keys_ignored : forall cfgd has_toml ns ft fj ft' fj',
   NoDup (map fst cfgd) -> dmem s_self cfgd = false ->
-  dmem s_self (select_file has_toml ft fj) = false -> dmem s_self (select_file has_toml ft' fj') = false ->
   (forall k, dmem k cfgd = true -> dget k (select_file has_toml ft fj) = dget k (select_file has_toml ft' fj')) ->
   config_of_ns cfgd has_toml ns ft fj = config_of_ns cfgd has_toml ns ft' fj'.
 Proof. exact unknown_keys_ignored. Qed.
@@ -131,20 +132,17 @@ Print Assumptions C20_unknown_keys_ignored.
 (* ... in particular dropping every unknown key from the files changes nothing *)
 Theorem C20_unknown_keys_dropped : forall cfgd has_toml ns ft fj,
   NoDup (map fst cfgd) -> dmem s_self cfgd = false ->
-  dmem s_self (select_file has_toml ft fj) = false ->
   config_of_ns cfgd has_toml ns ft fj
   = config_of_ns cfgd has_toml ns (option_map (known_only cfgd) ft) (option_map (known_only cfgd) fj).
 Proof. exact unknown_keys_dropped. Qed.
 Print Assumptions C20_unknown_keys_dropped.
 
-(* REFUTED for one key: a key called "self" in the selected file is not ignored -- Config.__init__( **{"self": ..})
-   raises TypeError, `bits` prints "ERROR: ..." for every command.  (Finding; witness below.) *)
-Theorem C20_unknown_key_self_refuted : forall cfgd has_toml ns ft fj,
-  dmem s_self ns = false ->
-  dmem s_self (select_file has_toml ft fj) = true ->
-  config_of_ns cfgd has_toml ns ft fj = Err TypeE.
-Proof. exact unknown_key_self. Qed.
-Print Assumptions C20_unknown_key_self_refuted.
+(* ... and no file content makes the pipeline fail: the result is a Config with exactly Config's keys *)
+Theorem C20_config_total : forall cfgd has_toml ns ft fj,
+  dmem s_self cfgd = false -> dmem s_self ns = false ->
+  exists c, config_of_ns cfgd has_toml ns ft fj = Ok c /\ map fst c = map fst cfgd.
+Proof. exact config_total. Qed.
+Print Assumptions C20_config_total.
 
 (* ------------------------------------------------------------------------------------------------ *)
 (* the hypotheses are satisfiable / concrete vectors                                                 *)
@@ -196,9 +194,10 @@ Proof.
   eexists. eexists. split; [vm_compute; reflexivity|]. split; vm_compute; reflexivity.
 Qed.
 
-(* unknown keys: {"foo": ..} changes nothing; {"self": ..} is the TypeError *)
+(* unknown keys: {"foo": ..} and {"self": ..} change nothing *)
 Example ex_unknown_keys :
   main_config G.config_defaults G.table true [] [] None (Some [([x66; x6f; x6f], PStr s_x)])
   = main_config G.config_defaults G.table true [] [] None None
-  /\ main_config G.config_defaults G.table true [] [] None (Some [(s_self, PStr s_x)]) = Err TypeE.
+  /\ main_config G.config_defaults G.table true [] [] None (Some [(s_self, PStr s_x); (k_of, PStr s_bin)])
+     = main_config G.config_defaults G.table true [] [] None (Some [(k_of, PStr s_bin)]).
 Proof. vm_compute. split; reflexivity. Qed.
